@@ -20,6 +20,8 @@ type DocOpts struct {
 	MaxAttrs int
 	// PElem is the share (out of 10) of element children; the rest is split 2:1 between text and comment.
 	PElem int
+	// ChainFan makes most elements have exactly one element child (long chains).
+	ChainFan bool
 	// WideFan, when > 0, is the fan-out of the two levels below the document
 	// element (sibling indexes of two digits).
 	WideFan int
@@ -55,6 +57,9 @@ func Doc(t *rapid.T, o DocOpts) *xdoc.Doc {
 		n := 1
 		if p.Kind != xpath.RootNode {
 			n = rapid.IntRange(0, o.MaxFan).Draw(t, "fan")
+			if o.ChainFan && d > 2 && d < o.MaxDepth {
+				n = 1 + rapid.IntRange(0, 9).Draw(t, "chainfan")/9
+			}
 			if o.WideFan > 0 && d <= 3 {
 				n = rapid.IntRange(0, o.WideFan).Draw(t, "widefan")
 			}
@@ -191,7 +196,16 @@ func MutateDoc(t *rapid.T, d *xdoc.Doc, o DocOpts) *xdoc.Doc {
 // (7 levels, fan-out 2), sometimes wide (up to 13 siblings on two levels, i.e.
 // two-digit sibling positions). Returns the label of the shape drawn.
 func Shape(t *rapid.T, o *DocOpts) string {
-	switch rapid.IntRange(0, 9).Draw(t, "shape") {
+	switch rapid.IntRange(0, 11).Draw(t, "shape") {
+	case 10:
+		// a long chain: 25 levels, fan-out 1-2
+		o.MaxDepth, o.MaxFan, o.ChainFan = 25, 2, true
+		return "doc:chain"
+	case 11:
+		// elements with up to a dozen attributes
+		o.AtNames = []string{"x", "y", "z", "k", "id", "a", "b", "c", "n", "m", "p", "q"}
+		o.MaxAttrs = 12
+		return "doc:many-attributes"
 	case 0:
 		o.MaxDepth, o.MaxFan = 7, 2
 		return "doc:deep"
